@@ -90,6 +90,17 @@ def run_variant(case, script, v, workdir, tag):
     notes = []
     other = None
     if v.other:
+        # somebody else's REJECTED order, validated in this process just before: a program nested
+        # far too deeply (answered invalid); it must leave no trace for the next validation
+        import contextlib
+        import io
+        from pfdl_scheduler.utils.parsing_utils import parse_string
+        with contextlib.redirect_stdout(io.StringIO()):
+            try:
+                parse_string("Task productionTask\n    Loop While " + "(" * 3000 + "true" + ")" * 3000
+                             + "\n        Move\nEnd\n")
+            except Exception:  # noqa: BLE001
+                pass          # judged by the C16 check
         other = impl_run.ImplRun(render(OTHER_PROGRAM), [gen_run.FINAL_VALUATION], [], test_ids=not v.uuid)
     run = impl_run.ImplRun(prog_arg, case["vals"], case["imm"], test_ids=not v.uuid, draw=v.draw,
                            scheduler_uuid="sched-%s" % tag, react=case.get("react"),
